@@ -15,7 +15,7 @@ class CommentStub:
 def _schemas():
     import cssutils.css as C
     if 'item' not in H.SCHEMAS:
-        iv = H.schema('ival', {'kind': 'int', 'name': 'str', 'literalname': 'str', 'priority': 'str'}, C.Property)
+        iv = H.schema('ival', {'kind': 'int', 'name': 'str', 'literalname': 'str', 'priority': 'str', 'value': 'str'}, C.Property)
         iv.class_field = 'kind'
         iv.class_by_type = {PROP: C.Property, OTHER: C.CSSComment}
         H.schema('item', {'type': 'str', 'value': ('ref', 'ival')}, None)
@@ -261,6 +261,7 @@ def build_decl(conc, model):
                 pr._name = z3str_to_py(ev(z3.Select(arr('name', z3.StringSort()), vid)))
                 pr._literalname = z3str_to_py(ev(z3.Select(arr('literalname', z3.StringSort()), vid)))
                 pr._priority = z3str_to_py(ev(z3.Select(arr('priority', z3.StringSort()), vid)))
+                _set_value_text(pr, z3str_to_py(ev(z3.Select(arr('value', z3.StringSort()), vid))))
                 byid[vid] = pr
             else:
                 byid[vid] = C.CSSComment('/*c*/')
@@ -339,7 +340,8 @@ def _mk_rm(normalized):
         p.ghost['seq'] = seq
         p.ghost['normalized'] = normalized
         M = p.engine.models
-        M[C.CSSStyleDeclaration.getPropertyValue] = Model(lambda I2, a, k: I2.p.fresh('str', 'oldvalue'), 'getPropertyValue: some string (own contract: getProperty)', assumed=True)
+        M[C.CSSStyleDeclaration.getPropertyValue] = Model(_m_getPropertyValue_contract, 'CSSStyleDeclaration.getPropertyValue (own contract, proved as its own target)', assumed=False)
+        p.note_assumption('Property.value / .priority / .name / .literalname are read as stored fields of the entry (their getters return the stored text)')
         M[U._NewBase._tempSeq if hasattr(U, '_NewBase') else U.Base2._tempSeq] = Model(lambda I2, a, k: Obj(U.Seq, {'_seq': SList([]), '_readonly': False}), 'a fresh writable Seq', assumed=False)
         M[U.Base2._tempSeq] = M[U._NewBase._tempSeq if hasattr(U, '_NewBase') else U.Base2._tempSeq]
         p.engine.inline.add(U.Seq.appendItem)
@@ -377,6 +379,12 @@ def _mk_rm(normalized):
         return rm_post(ghost, self, seq, name)
 
     @t.ensure
+    def returns_the_effective_value_of_the_removed_name(ghost, seq, name, result):
+        return rm_result(ghost, seq, name, result)
+
+    t.models[rm_result] = Model(_m_rm_result, 'post (z3)', assumed=False)
+
+    @t.ensure
     def a_readonly_block_is_never_changed_silently(old):
         return not old['self']._readonly
 
@@ -388,6 +396,41 @@ def _mk_rm(normalized):
         return old['self']._readonly and same_entries(self, old['self'])
 
     return t
+
+
+def _m_getPropertyValue_contract(I, args, kw):
+    """getPropertyValue as a callee (its own target proves this): the value of an object that getProperty's contract calls the effective
+    one for (name, normalize), else the default"""
+    p = I.p
+    item, ival = _schemas()
+    me, name = args[0], args[1]
+    norm = args[2] if len(args) > 2 else kw.get('normalize', True)
+    default = args[3] if len(args) > 3 else kw.get('default', '')
+    p.counter += 1
+    fid = z3.Int(f'effective!ref!{p.counter}')
+    e = Opt(fid == 0, H.SymObj(fid, ival))
+    p.assume(sp(I, effective, me.fields['_seq'], name, norm, e))
+    r = p.fresh('str', 'oldvalue')
+    p.assume(z3.If(e.isnone, lift(r) == lift(default), lift(r) == lift(H.read_field(I, e.val, 'value'))))
+    p.ghost.setdefault('value_calls', []).append((name, norm, default, r))
+    return r
+
+
+def rm_result(ghost, seq, name, result):
+    """native form (replay): seq = the entries before the call"""
+    e = reference_effective(seq, name, ghost['normalized'])
+    return result == ('' if e is None else e.value)
+
+
+def _m_rm_result(I, args, kw):
+    ghost, seq, name, result = args
+    calls = ghost.get('value_calls', [])
+    if len(calls) != 1:
+        return Sym('bool', z3.BoolVal(False))
+    n0, norm0, d0, r0 = calls[0]
+    if is_sym(d0) or d0 != '' or is_sym(norm0) or bool(norm0) != bool(ghost['normalized']):
+        return Sym('bool', z3.BoolVal(False))
+    return Sym('bool', z3.And(lift(n0) == lift(name), lift(result) == lift(r0)))
 
 
 def same_entries(a, b):
@@ -415,18 +458,36 @@ def rm_post(ghost, self, seq, name):
 
 
 def _rm_native(normalized):
-    def run(mod, conc, model):
-        s = build_decl(conc, model)
-        s._readonly = bool(conc['self']['fields'].get('_readonly'))
+    import types
+
+    def once(s, name):
         before = list(s.seq)
-        import types
-        post = {'self': s, 'seq': before, 'ghost': {'normalized': normalized},
+        post = {'self': s, 'seq': before, 'name': name, 'ghost': {'normalized': normalized},
                 'old': {'self': types.SimpleNamespace(_readonly=s._readonly, seq=before)}}
         try:
-            r = s.removeProperty(conc['name'], normalize=normalized)
+            r = s.removeProperty(name, normalize=normalized)
         except Exception as e:  # noqa: BLE001
             return ('raise', e, post)
         return ('return', r, post)
+
+    def run(mod, conc, model):
+        """the solver's input first; if the real function meets the clause under replay there, a battery of small blocks around it"""
+        s = build_decl(conc, model)
+        s._readonly = bool(conc['self']['fields'].get('_readonly'))
+        out = once(s, conc['name'])
+        clause = {'returns_the_effective_value_of_the_removed_name': rm_result,
+                  'removes_exactly_the_entries_of_that_name_and_keeps_the_others_in_order': None}.get(getattr(RM_N if normalized else RM_L, 'current_clause', None))
+        if clause is None or out[0] != 'return' or not clause(out[2]['ghost'], out[2]['seq'], conc['name'], out[1]):
+            return out
+        seen = set()
+        for entries, name, norm, default in accessor_battery(conc['name'], ''):
+            if (entries, name) in seen:
+                continue
+            seen.add((entries, name))
+            o2 = once(build_from_entries(entries), name)
+            if o2[0] == 'return' and not clause(o2[2]['ghost'], o2[2]['seq'], name, o2[1]):
+                return o2
+        return out
     return run
 
 
@@ -452,5 +513,163 @@ def _m_rm_post(I, args, kw):
 
 RM_N = _mk_rm(True)
 RM_L = _mk_rm(False)
+RM_N.battery_on_unknown = RM_L.battery_on_unknown = True
 RM_N.native_call = _rm_native(True)
 RM_L.native_call = _rm_native(False)
+
+
+# ------------------------------------------------------------------ getPropertyValue / getPropertyPriority / removeProperty's return value
+# "removal ... returns the effective value", "the effective property for a name is ...": the three accessors are verified MODULARLY against
+# getProperty's contract (the caller sees only `effective(seq, name, normalize, p)` of the object it got back, never the loop). The object
+# the callee handed back is kept as ghost state so that the postcondition can say "the result is the value / priority OF an object that
+# getProperty's contract calls the effective one, else the default".
+class _ValueText:
+    """stand-in for a PropertyValue in replayed Property objects: Property.value reads propertyValue.value"""
+
+    def __init__(self, text):
+        self.value = text
+        self.cssText = text
+
+    def __bool__(self):
+        return True
+
+
+def _set_value_text(pr, text):
+    pr._propertyValue = _ValueText(text)
+
+
+def _m_getProperty_contract(I, args, kw):
+    """getProperty as a callee: havoc the result (None or an entry value object), assume its proved postcondition"""
+    p = I.p
+    item, ival = _schemas()
+    me = args[0]
+    name = args[1]
+    norm = args[2] if len(args) > 2 else kw.get('normalize', True)
+    p.counter += 1
+    fid = z3.Int(f'effective!ref!{p.counter}')
+    r = Opt(fid == 0, H.SymObj(fid, ival))
+    seq = me.fields['_seq']
+    p.assume(sp(I, effective, seq, name, norm, r))
+    p.ghost.setdefault('effective_objects', []).append((name, norm, r))
+    return r
+
+
+def _mk_accessor(meth, field, has_default):
+    t = register(Target('cssutils/css/cssstyledeclaration.py', f'CSSStyleDeclaration.{meth}', ['C10']))
+    t.models.update(SPEC_MODELS)
+
+    @t.inputs
+    def _in(I):
+        import cssutils.css as C
+        me, seq = mk_decl(I)
+        p = I.p
+        p.engine.models[C.CSSStyleDeclaration.getProperty] = Model(_m_getProperty_contract, 'CSSStyleDeclaration.getProperty (own contract, proved as its own target)', assumed=False)
+        p.note_assumption('Property.value / .priority / .name / .literalname are read as stored fields of the entry (their getters return the stored text)')
+        env = {'self': me, 'name': p.fresh('str', 'name'), 'normalize': p.fresh('bool', 'normalize'), 'seq': seq}
+        if has_default:
+            env['default'] = p.fresh('str', 'default')
+        return env
+
+    t.models[ACCESSOR_POST[field]] = Model(_mk_m_post(field), 'post (z3)', assumed=False)
+    if field == 'value':
+        @t.ensure
+        def returns_the_value_of_the_effective_property_else_the_default(ghost, seq, name, normalize, default, result):
+            return value_post(ghost, seq, name, normalize, default, result)
+    else:
+        @t.ensure
+        def returns_the_priority_of_the_effective_property_else_the_empty_string(ghost, seq, name, normalize, result):
+            return priority_post(ghost, seq, name, normalize, '', result)
+
+    def native(mod, conc, model):
+        """the solver's input first; when the real function agrees with the reference there (the model may lean on the callee's havocked
+        result), a small battery around it: entry lists of <= 3 entries over two names, two spellings, both priorities and a comment"""
+        def run(s, name, norm, default):
+            a = [name, norm] + ([default] if has_default else [])
+            r = getattr(s, meth)(*a)
+            post = {'seq': list(s.seq), 'ghost': {}, 'name': name, 'normalize': norm}
+            if has_default:
+                post['default'] = default
+            ok = ACCESSOR_POST[field]({}, post['seq'], name, norm, default if has_default else '', r)
+            return ok, ('return', r, post)
+        s0 = build_decl(conc, model)
+        ok, out = run(s0, conc['name'], conc['normalize'], conc.get('default', ''))
+        if not ok:
+            return out
+        for entries, name, norm, default in accessor_battery(conc['name'], conc.get('default', '')):
+            ok2, out2 = run(build_from_entries(entries), name, norm, default)
+            if not ok2:
+                return out2
+        return out
+
+    t.native_call = native
+    t.battery_on_unknown = True
+    return t
+
+
+def _mk_m_post(field):
+    def _m_post(I, args, kw):
+        ghost, seq, name, normalize_, default, result = args
+        effs = ghost.get('effective_objects', [])
+        if len(effs) != 1:
+            return Sym('bool', z3.BoolVal(False))  # the accessor must ask getProperty exactly once
+        n0, norm0, e = effs[0]
+        same_q = z3.And(lift(n0) == lift(name), SX.as_bool_term(truth(norm0)) == SX.as_bool_term(truth(normalize_)))
+        val = H.read_field(I, e.val, field)
+        return Sym('bool', z3.And(same_q, z3.If(e.isnone, lift(result) == lift(default), lift(result) == lift(val))))
+    return _m_post
+
+
+def value_post(ghost, seq, name, normalize, default, result):  # noqa: A002  (native form; symbolic form: _mk_m_post)
+    e = reference_effective(seq, name, normalize)
+    return result == (default if e is None else e.value)
+
+
+def priority_post(ghost, seq, name, normalize, default, result):  # noqa: A002
+    e = reference_effective(seq, name, normalize)
+    return result == (default if e is None else e.priority)
+
+
+ACCESSOR_POST = {'value': value_post, 'priority': priority_post}
+
+
+def build_from_entries(entries):
+    """real declaration block from entry specs: None = a comment, else (name, literalname, priority, value)"""
+    import cssutils.css as C
+    s = C.CSSStyleDeclaration()
+    seq = s._tempSeq()
+    for e in entries:
+        if e is None:
+            seq.append(C.CSSComment('/*c*/'), 'COMMENT')
+        else:
+            pr = C.Property('a', 'b')
+            pr._name, pr._literalname, pr._priority = e[0], e[1], e[2]
+            _set_value_text(pr, e[3])
+            seq.append(pr, 'Property')
+    s._setSeq(seq)
+    return s
+
+
+def accessor_battery(name0, default0):
+    import itertools
+    kinds = [None, ('a', 'a', '', 'v1'), ('a', 'A', '', 'v2'), ('a', 'a', 'important', 'v3'), ('a', 'A', 'important', 'v4'), ('b', 'b', '', 'v5')]
+    names = [n for n in dict.fromkeys(['a', 'A', 'b', name0])]
+    for n in range(0, 4):
+        for entries in itertools.product(kinds, repeat=n):
+            for name in names:
+                for norm in (True, False):
+                    for default in dict.fromkeys([default0, 'dflt']):
+                        yield entries, name, norm, default
+
+
+def reference_effective(seq, name, normalized):
+    """independent reference (replay): last !important entry addressed by the name, else the last entry addressed by it, else None"""
+    from cssutils.css import Property
+    nn = normalize(name)
+    hits = [it.value for it in seq if isinstance(it.value, Property) and ((normalized and it.value.name == nn) or it.value.literalname == name)]
+    imp = [h for h in hits if h.priority]
+    return imp[-1] if imp else (hits[-1] if hits else None)
+
+
+
+GPV = _mk_accessor('getPropertyValue', 'value', True)
+GPP = _mk_accessor('getPropertyPriority', 'priority', False)
